@@ -1,3 +1,11 @@
 #!/bin/bash
-# bring the lab copy of /verif to /verif's HEAD
+# tools/labsync.sh : create (if missing) and bring up to date a scratch copy of the checks that works on a
+# scratch worktree of /repo, so that seeded changes never have to be applied to /repo itself:
+#   /tmp/lab/repo   git worktree of /repo (detached, at /repo's HEAD when created)
+#   /tmp/lab/verif  git worktree of /verif at /verif's HEAD, harness/Cargo.toml pointing at /tmp/lab/repo
+# Remove both (git worktree remove --force) together with /tmp/lab when done. Not used by any registered check.
+set -e
+mkdir -p /tmp/lab
+[ -d /tmp/lab/repo ] || git -C /repo worktree add -q --detach /tmp/lab/repo HEAD
+[ -d /tmp/lab/verif ] || git -C /verif worktree add -q --detach /tmp/lab/verif HEAD
 cd /tmp/lab/verif && git checkout -q -- . && git checkout -q --detach $(git -C /verif rev-parse HEAD) && sed -i 's#path = "/repo"#path = "/tmp/lab/repo"#' harness/Cargo.toml && git log --oneline | head -1
